@@ -17,3 +17,13 @@ func VerifTT() [64]uint32 { return tt }
 func VerifIV() [8]uint32 {
 	return [8]uint32{iv0, iv1, iv2, iv3, iv4, iv5, iv6, iv7}
 }
+
+// VerifSetState places a hash made by New into an arbitrary internal state (chaining value,
+// buffered bytes, total length), so that behaviour at lengths that cannot be reached by
+// actually hashing (2^29 bytes and beyond) can be exercised.
+func VerifSetState(hh hash.Hash, h [8]uint32, x []byte, length uint64) {
+	s := hh.(*SM3)
+	s.h = h
+	s.nx = copy(s.x[:], x)
+	s.len = length
+}
